@@ -39,6 +39,9 @@ type Mem struct {
 // cellProxy is one of the two memory objects the buses are populated with: it owns the 16-byte cells
 // of one parity and forwards to the shared image, noting accesses that belong to the other object.
 type cellProxy struct {
+	// (the objects are attached BY VALUE, and the struct holds a slice and a func: like the library's own
+	// memory.RAM their dynamic type is not comparable, so bus code must not compare memory objects)
+	pad    []byte
 	m      *Mem
 	parity uint32
 	// reenter: while serving an access the object makes a bus access of its own (as a device that
@@ -49,7 +52,7 @@ type cellProxy struct {
 // check notes an access that belongs to the other object and reports it; such an access is served with
 // the complement of the byte (the two objects are different chips: what one holds at an address is not
 // what the other holds), so that a misdirected access also shows in the architectural result
-func (p *cellProxy) check(a uint32) (foreign bool) {
+func (p cellProxy) check(a uint32) (foreign bool) {
 	if a>>4&1 != p.parity {
 		if !p.m.Misrouted {
 			p.m.Misrouted, p.m.MisAddr = true, a
@@ -58,14 +61,14 @@ func (p *cellProxy) check(a uint32) (foreign bool) {
 	}
 	return false
 }
-func (p *cellProxy) nested(a uint32) {
+func (p cellProxy) nested(a uint32) {
 	if p.reenter != nil && !p.m.inNested {
 		p.m.inNested = true
 		p.reenter(a&0xFFFFFF ^ 0x800010)
 		p.m.inNested = false
 	}
 }
-func (p *cellProxy) Read(a uint32) byte {
+func (p cellProxy) Read(a uint32) byte {
 	if p.m.inNested {
 		return p.m.Peek(a) // the object's own access: not part of the instruction's access log
 	}
@@ -77,7 +80,7 @@ func (p *cellProxy) Read(a uint32) byte {
 	}
 	return v
 }
-func (p *cellProxy) Write(a uint32, v byte) {
+func (p cellProxy) Write(a uint32, v byte) {
 	if p.m.inNested {
 		return
 	}
@@ -87,10 +90,10 @@ func (p *cellProxy) Write(a uint32, v byte) {
 	p.m.Write(a, v)
 	p.nested(a)
 }
-func (p *cellProxy) Shutdown()            {}
-func (p *cellProxy) Size() uint32         { return 0 }
-func (p *cellProxy) Clear()               {}
-func (p *cellProxy) Dump(a uint32) []byte { return nil }
+func (p cellProxy) Shutdown()            {}
+func (p cellProxy) Size() uint32         { return 0 }
+func (p cellProxy) Clear()               {}
+func (p cellProxy) Dump(a uint32) []byte { return nil }
 
 func (m *Mem) Base(a uint32) byte {
 	x := (a ^ m.Seed) * 2654435761
@@ -237,13 +240,14 @@ type Pri struct {
 	cInit, cFrom *cpu65c816.CPU
 	M            *Mem
 	dirt         byte
+	autoHooks    bool // the hooks in place were installed by Load for a dirty start state
 }
 
 func NewPri() *Pri {
 	b, _ := bus.New()
 	m := &Mem{}
 	re := func(a uint32) { b.EaRead(a) }
-	px := [2]*cellProxy{{m, 0, re}, {m, 1, re}}
+	px := [2]cellProxy{{nil, m, 0, re}, {nil, m, 1, re}}
 	for cell := uint32(0); cell < 1<<20; cell++ {
 		if err := b.Attach(px[cell&1], "cell", cell<<4, cell<<4|15); err != nil {
 			panic(err)
@@ -270,6 +274,15 @@ func (p *Pri) Load(r Raw) {
 	c.E, c.Stopped, c.Interrupt, c.AllCycles = r.E, r.Stopped, r.Interrupt, r.AllCycles
 	p.dirt = r.Dirt
 	p.B.EA, p.B.Write = 0, false
+	if p.autoHooks {
+		p.cFrom.OnWDM, p.cFrom.OnPC, p.autoHooks = nil, nil, false
+	}
+	if r.Dirt != 0 && c.OnWDM == nil && c.OnPC == nil {
+		// observers installed that do nothing: a hook must not change what an instruction does
+		c.OnWDM = func(byte) {}
+		c.OnPC = map[uint32]func(){uint32(r.RK)<<16 | uint32(r.PC): func() {}}
+		p.autoHooks = true
+	}
 	if r.Dirt != 0 {
 		c.Cycles, c.PPC, c.PRK, c.WDM = 0x5A, 0xA5A5, 0x5A, 0xA5
 		c.StepInfo = cpu65c816.StepInfo{EA: 0xA5A5A5, Addr: 0x5A5A, Mode: 0x7F}
@@ -308,6 +321,7 @@ type Alt struct {
 	cInit, cFrom *cpualt.CPU
 	M            *Mem
 	dirt         byte
+	autoHooks    bool // the hooks in place were installed by Load for a dirty start state
 }
 
 func NewAlt() *Alt {
@@ -315,7 +329,7 @@ func NewAlt() *Alt {
 	c.Init()
 	m := &Mem{}
 	re := func(a uint32) { c.Bus.EaRead(a) }
-	px := [2]*cellProxy{{m, 0, re}, {m, 1, re}}
+	px := [2]cellProxy{{nil, m, 0, re}, {nil, m, 1, re}}
 	for cell := uint32(0); cell < 1<<20; cell++ {
 		c.Bus.AttachReader(cell<<4, cell<<4|15, px[cell&1].Read)
 		c.Bus.AttachWriter(cell<<4, cell<<4|15, px[cell&1].Write)
@@ -340,6 +354,14 @@ func (p *Alt) Load(r Raw) {
 	c.StepInfo = cpualt.StepInfo{}
 	c.Bus.M = 0
 	p.dirt = r.Dirt
+	if p.autoHooks {
+		p.cFrom.OnWDM, p.cFrom.OnPC, p.autoHooks = nil, nil, false
+	}
+	if r.Dirt != 0 && c.OnWDM == nil && c.OnPC == nil {
+		c.OnWDM = func(byte) {}
+		c.OnPC = map[uint32]func(){uint32(r.RK)<<16 | uint32(r.PC): func() {}}
+		p.autoHooks = true
+	}
 	if r.Dirt != 0 {
 		c.Cycles, c.PPC, c.PRK, c.WDM = 0x5A, 0xA5A5, 0x5A, 0xA5
 		c.StepInfo = cpualt.StepInfo{EA: 0xA5A5A5, Addr: 0x5A5A, Mode: 0x7F}
